@@ -487,6 +487,7 @@ pub const NAMES: &[&str] = &[
     "probe_capture_empty", "probe_capture_multibyte", "probe_capture_whitespace_edges", "probe_capture_long_input",
     "probe_capture_claimed_input_no_oracle", "probe_capture_unclaimed", "probe_real_inner_numeric", "probe_transparent_named_form",
     "probe_default_named_form", "probe_to_string_call", "probe_inner_type_is_a_type_parameter", "probe_inner_borrows_for_a_lifetime_parameter",
+    "probe_burst_of_failed_display_calls_first",
 ];
 const R_DISPLAY: usize = 0;
 const R_CONV: usize = 1;
@@ -514,6 +515,7 @@ const P_D_NAMED: usize = 22;
 const P_TOSTRING: usize = 23;
 const P_GENERIC: usize = 24;
 const P_BORROWED: usize = 25;
+const P_BURST: usize = 26;
 
 pub struct Failure {
     pub oracle: &'static str,
@@ -573,6 +575,25 @@ pub fn exec(case: &Case, leg: &Leg, mut stats: Option<&mut Stats>, keep_log: boo
             };
             if keep_log {
                 info.log.push(format!("value = {}", subject.debug()));
+            }
+            // A burst of FAILED calls first, in about one run out of eight (decided by the value index, so that it is part
+            // of the script): 2, 130 or 300 times the same value is formatted into a sink that refuses everything. Whatever
+            // a failed call leaves behind must not reach the next call.
+            let burst = match inner.0 % 16 {
+                7 => 130,
+                8 => 300,
+                9 => 2,
+                _ => 0,
+            };
+            if burst > 0 {
+                for _ in 0..burst {
+                    let mut dead = SimSink::new(Plan::RefuseFromCall(0));
+                    let _ = catch(|| fmt::Write::write_fmt(&mut dead, format_args!("{}", subject.display())));
+                }
+                log_clear();
+                if let Some(st) = stats.as_deref_mut() {
+                    st.hit(P_BURST);
+                }
             }
             match call {
                 Call::ToString => {
@@ -773,14 +794,20 @@ pub fn exec(case: &Case, leg: &Leg, mut stats: Option<&mut Stats>, keep_log: boo
                 Some(d) if case.has_from_str => d,
                 _ => return (Ok(()), info),
             };
+            // both parses read from ONE buffer (same address, and the same length whenever the two inputs are equally
+            // long): the way a caller's read_line loop hands its lines to from_str
+            let mut buf = String::with_capacity(input.len().max(warm.as_ref().map_or(0, |w| w.len())) + 8);
             if let Some(w) = warm {
                 info.trace.s(w);
+                buf.push_str(w);
                 // the warm-up parse: not judged here (the same input is judged by the runs that check it)
                 let _ = catch(|| {
-                    let _ = (case.parse)(w, *try_from).map(|sub| sub.display().to_string());
+                    let _ = (case.parse)(&buf, *try_from).map(|sub| sub.display().to_string());
                 });
                 log_clear();
+                buf.clear();
             }
+            buf.push_str(input);
             let v = &case.variants[dv];
             let sig = |o: &str| format!("{}:capture:{}:{}:nofault", o, v.role, v.form);
             let mk_fail = |oracle: &'static str, e: String, o: String| Failure { oracle, sig: sig(oracle), expected: e, observed: o };
@@ -812,7 +839,7 @@ pub fn exec(case: &Case, leg: &Leg, mut stats: Option<&mut Stats>, keep_log: boo
                 }
             }
             log_clear();
-            let r = match catch(|| (case.parse)(input, *try_from)) {
+            let r = match catch(|| (case.parse)(&buf, *try_from)) {
                 Ok(r) => r,
                 Err(m) => return (Err(mk_fail("panic", "no panic".into(), m)), info),
             };
@@ -1056,7 +1083,16 @@ pub fn gen_leg(rng: &mut Rng, case: &Case) -> Leg {
             let input = gen_input(rng, case);
             let try_from = rng.chance(1, 2);
             // (drawn last) a warm-up parse of another input, or of the same one, in three runs out of ten
-            let warm = if rng.chance(30, 100) { Some(if rng.chance(1, 2) { gen_input(rng, case) } else { input.clone() }) } else { None };
+            let warm = if rng.chance(30, 100) {
+                let same_len: Vec<&str> = case.claims.iter().map(|(l, _)| *l).filter(|l| l.len() == input.len() && *l != input).collect();
+                Some(match rng.below(3) {
+                    0 if !same_len.is_empty() => same_len[rng.usize_below(same_len.len())].to_string(),
+                    1 => input.clone(),
+                    _ => gen_input(rng, case),
+                })
+            } else {
+                None
+            };
             Leg::Capture { input, try_from, warm }
         }
     }
